@@ -597,6 +597,15 @@ class Ctx:
         single = p.monomial_single()
         if single is not None:
             c, m = single
+            for a, _ in m:
+                at = self.atoms[a]
+                if at.kind == 'sqrt' and ('sqrtinv', a) not in self.memo \
+                        and at.data.monomial_single() is None:
+                    # s^-2 * q = 1 for s = sqrt(q) != 0 (s^2 -> q is a
+                    # rewrite rule; its reciprocal form is a hypothesis)
+                    self.memo[('sqrtinv', a)] = True
+                    self.hyps.append(('sqrt:inv', Poly({((a, -2), ): Fraction(
+                        1)}) * at.data - Poly.const(1)))
             return Poly({tuple((a, -e) for a, e in m): 1 / c})
         # normalise content
         m0, c0 = p.leading()
